@@ -748,7 +748,7 @@ func TestVerif_C37(t *testing.T) {
 	defer rec.Done()
 	// the builders hold a 16 MB pointer array each; fewer GC cycles = less rescanning
 	defer debug.SetGCPercent(debug.SetGCPercent(400))
-	n := rec.N(20000, 400000)
+	n := rec.N(20000, 800000)
 	const workers = 4
 	var wg sync.WaitGroup
 	for wi := 0; wi < workers; wi++ {
